@@ -859,6 +859,8 @@ pub fn run(cfg: &Cfg) -> Report {
         assumptions: vec![
             "previous data is always an honest interpreter output (as the property states)".into(),
             "memory bound: 64 MiB + 256 bytes per input byte; time: 60 s wall-clock watchdog per case is inconclusive, not a violation".into(),
+            "not run: scripts that amplify memory by themselves (a recursive fold that appends the canon of its own stream doubles the value per round up to the 1024-value stream limit; :error:.$.message fed back into a failing lens doubles escapes): they need tens of GB on a machine without swap (DESIGN.md 12.12)".into(),
+            "added in the last part of round 3: error objects of 14 shapes through fail/%last_error%/:error:; call results of the wrong JSON type at honest ids; odd scripts driven to the end on two peers with the service model (next executed twice per iteration, scalar/iterator/stream name clashes, values nested 135 deep with an honest follow-up run); fold-lore and bit-flip sweeps over histories of every directed script; fold lore naming non-value states with short later entries; a request-sent state carrying this peer's call id at another or at a waiting call".into(),
         ],
     }
 }
